@@ -185,3 +185,32 @@ Proof.
   destruct fx; vm_compute; discriminate.
 Qed.
 
+
+(* ------------------------------------------------------------------ non-vacuity of the corollaries' hypotheses *)
+Definition nested_rows : list (srow nat) := [([7; 8; 9], 1, 2, 3); ([4; 5; 6], 3, 2, 1)].
+
+Example nested_observed_in_memory :
+  observe [] (sorted_walk t_nested) (from_lists false (sorted_walk t_nested) nested_rows) = Ok (expected nested_rows).
+Proof. vm_compute. reflexivity. Qed.
+
+Example nested_observed_after_csv :
+  res_bind (csv_roundtrip nid nid Nat.add false [] (sorted_walk t_nested) (from_lists false (sorted_walk t_nested) nested_rows))
+           (observe [] (sorted_walk t_nested)) = Ok (expected nested_rows).
+Proof. vm_compute. reflexivity. Qed.
+
+Example nested_best_vector :
+  best_vector ngtb [] (sorted_walk t_nested) (from_lists false (sorted_walk t_nested) nested_rows) = Ok [4; 5; 6].
+Proof. vm_compute. reflexivity. Qed.
+
+Example nested_minimise_two :
+  List.length (minimise Nat.add ngtb (from_lists false (sorted_walk t_nested) [([7; 8; 9], 1, 9, 3); ([4; 5; 6], 3, 2, 1)])) = 2.
+Proof. vm_compute. reflexivity. Qed.
+
+Example flat_roundtrip_by_names :
+  res_bind (csv_roundtrip nid nid Nat.add false [] (sorted_walk t_flat) (from_lists false (sorted_walk t_flat) rows2))
+           (observe [] (sorted_walk t_flat)) = Ok (expected rows2).
+Proof. vm_compute. reflexivity. Qed.
+
+Example db_roundtrip_mixed :
+  db_roundtrip false (from_lists false (sorted_walk t_mixed) rows2) = Ok (from_lists false (sorted_walk t_mixed) rows2).
+Proof. vm_compute. reflexivity. Qed.
